@@ -8,5 +8,6 @@ pub mod float;
 pub mod shape;
 pub mod render;
 pub mod schema;
+pub mod corpus;
 
 pub use item::*;
